@@ -137,6 +137,8 @@ def run(chk, repo, tier):
     chk.ob('C17-c', 'N-sibling', f.key, 'mask rescaled with order 0 in the monolithic and the segmented branch',
            okc_order and n_mask >= 2, f'{n_mask} mask branch(es)', f.loc())
     mask_rescale_siblings(chk, repo, 'C17-c', rets)
+    from .common import mask_index_rule
+    mask_index_rule(chk, repo, 'C17-c', ['plane.Plane.rescale', 'plane.Plane.resample', 'util.rescale'])
     chk.ob('C17-c', 'R-binary', f.key, 'mask re-binarised (nonzero -> 1)',
            (okc_bin and n_mask > 0) if (not bin_unknown or not okc_bin) else None,
            f'undecided: no range model for {bin_unknown[0]}' if bin_unknown else 'stored mask has value set {0, 1}', f.loc())
